@@ -320,7 +320,10 @@ class DataFormat(object):
 
         if name == KEY_ENCODING:
             try:
-                codecs.lookup(value)
+                codec_info = codecs.lookup(value)
+                if not getattr(codec_info, "_is_text_encoding", True):
+                    # For example "hex" or "base64", which convert bytes to bytes and cannot be used to read text.
+                    raise LookupError("%s is not a text encoding" % _compat.text_repr(value))
             except (LookupError, UnicodeError, ValueError):
                 # NOTE: Names with a null character or lone surrogates fail with ValueError or UnicodeError.
                 raise errors.InterfaceError(
